@@ -514,7 +514,7 @@ impl EnumSpec for Pipes {
         let n = max_len(tier);
         let common = format!("inputs = all vectors of length <= {n} over {{0,1,2}} (items are (index, value)); for the chunking APIs (FiberPool::parallel_*, concurrency::parallel_*) additionally cyclic vectors of lengths 5..17 x max_workers {{1,2,3}} (and around 2x, 3x, 4x the CPU count for the functions that chunk by num_cpus) with stage/op in {{Id, +1 / concat, sum, fail on the last item}}: a length the chunk size does not divide; runtimes: current-thread and 2-worker multi-thread");
         let detail = match self.api {
-            Api::PoolMap | Api::PoolForEach => "stage in {Id, +1, FailAt(i), PanicAt(i) for every i}; max_fibers {1,2,8}".to_string(),
+            Api::PoolMap | Api::PoolForEach => "stage in {Id, +1, FailAt(i), PanicAt(i) for every i; parallel_map also LateAt(i): the call for item i returns only after the call for item i+1 has returned (max_fibers >= 2), so completion order differs from input order on the 2-thread runtime}; max_fibers {1,2,8}".to_string(),
             Api::PoolReduce => "op in {concat (non-commutative, identity []), sum (identity 0), concat failing/panicking on item i for every i}; max_fibers {1,2,8} x max_workers {1,2,3}; oracle = sequential left fold".to_string(),
             Api::PoolSpawnBatch => "futures with stage in {Id, +1, FailAt(i), PanicAt(i), LateAt(i) (item i finishes after item i+1; max_fibers >= 2)}; max_fibers {1,2,8}; every handle awaited in input order: handle j yields Ok(stage(item j)) or Err exactly for the misbehaving item; every future ran exactly once".to_string(),
             Api::ModMap => "stage in {Id, +1, FailAt(i), PanicAt(i)}".to_string(),
@@ -539,7 +539,9 @@ impl EnumSpec for Pipes {
                 for rt in RTS {
                     for max_fibers in [1usize, 2, 8] {
                         let ok = for_inputs(tier, &mut |inp| {
-                            for stage in stages_for(inp.len(), &StageOpts { fail: true, panic: true, late: spawn && max_fibers >= 2 }) {
+                            // (the synchronous LateAt of parallel_map needs two items running at the same time: 2-thread runtime only)
+                            let late = (spawn || (self.api == Api::PoolMap && rt == Rt::Multi2)) && max_fibers >= 2;
+                            for stage in stages_for(inp.len(), &StageOpts { fail: true, panic: true, late }) {
                                 if !f(Case { rt, input: inp.to_vec(), stage, max_fibers, max_workers: 2, ..Default::default() }) {
                                     return false;
                                 }
@@ -822,23 +824,56 @@ impl EnumSpec for Pipes {
 // ------------------------------------------------------------------------------------------------
 // FiberPool
 
+/// LateAt(i) for the APIs that take a SYNCHRONOUS closure (FiberPool::parallel_map / parallel_for_each, concurrency::parallel_map):
+/// the call for item i returns only after the call for item i+1 has returned (bounded: 300 ms, so that a runtime that runs the
+/// items one after the other is not stalled for long).  Completion order then differs from input order wherever two items
+/// can run at the same time.
+fn late_sync(stage: Stage, n: usize) -> impl Fn(Item) -> ZResult<Item> + Send + Sync + Clone + 'static {
+    let done: Arc<Vec<std::sync::atomic::AtomicBool>> = Arc::new((0..n + 1).map(|_| std::sync::atomic::AtomicBool::new(false)).collect());
+    move |it: Item| {
+        if let Stage::LateAt(i) = stage {
+            if it.0 == i && i + 1 < done.len() {
+                let t0 = std::time::Instant::now();
+                while !done[i + 1].load(Ordering::SeqCst) && t0.elapsed() < Duration::from_millis(300) {
+                    std::thread::sleep(Duration::from_micros(200));
+                }
+            }
+        }
+        let r = apply(stage, it);
+        if it.0 < done.len() {
+            done[it.0].store(true, Ordering::SeqCst);
+        }
+        r
+    }
+}
+
 fn run_pool_map(c: &Case) -> Outcome {
     let stage = c.stage;
     let its = items(&c.input);
+    let f = late_sync(stage, c.input.len());
     let got = match block(c.rt, async {
         let pool = pool(c)?;
-        pool.parallel_map(its, move |it| apply(stage, it)).await
+        pool.parallel_map(its, move |it| f(it)).await
     }) {
         Ok(r) => r,
         Err(o) => return o,
     };
-    judge_seq(got, reference(&[stage], &c.input), swallow_class(&[stage], c.input.len()))
+    match judge_seq(got, reference(&[stage], &c.input), swallow_class(&[stage], c.input.len())) {
+        // a LateAt case fails deterministically when results come back in completion order: its own class, so that it is not
+        // represented by a timing-dependent witness of the plain stages
+        Outcome::Fail(mut f) if f.clause == "result_mismatch" && f.class == "reordered" && matches!(stage, Stage::LateAt(_)) => {
+            f.class = "completion_order".to_string();
+            Outcome::Fail(f)
+        }
+        o => o,
+    }
 }
 
 fn run_mod_map(c: &Case) -> Outcome {
     let stage = c.stage;
     let its = items(&c.input);
-    let got = match block(c.rt, async { zipora::concurrency::parallel_map(its, move |it| apply(stage, it)).await }) {
+    let f = late_sync(stage, c.input.len());
+    let got = match block(c.rt, async { zipora::concurrency::parallel_map(its, move |it| f(it)).await }) {
         Ok(r) => r,
         Err(o) => return o,
     };
